@@ -502,8 +502,8 @@ func (mw *msgWriter) writeHeader(key Header, values ...string) int {
 	buffer.WriteString(string(key))
 	charLength -= len(key)
 	if len(values) == 0 {
-		buffer.WriteString(":\r\n")
-		return lines + 1
+		// headers without a value are omitted, no line has been written
+		return lines
 	}
 	buffer.WriteString(": ")
 	charLength -= 2
